@@ -9,8 +9,8 @@ import json
 import os
 import vlib
 
-DEPTH = {"quick": 7, "thorough": 9}
-E2E_DEPTH = {"quick": 6, "thorough": 8}      # exhaustive depth replayed end-to-end through the controllers
+DEPTH = {"quick": 6, "thorough": 8}
+E2E_DEPTH = {"quick": 5, "thorough": 7}      # exhaustive depth replayed end-to-end through the controllers
 E2E_SIM = {"quick": 300, "thorough": 3000}   # deep simulated behaviours replayed end-to-end
 
 
@@ -47,7 +47,7 @@ def _e2e(run, behs, tag):
 
 
 def check(run):
-    run.rule = ("TLC enumerates every sequence over {S,F,Reset,Restart,Hydrate} of length D from Health.tla; "
+    run.rule = ("TLC enumerates every sequence over {S,F,Reset,ResetNC,Restart,Hydrate} of length D from Health.tla; "
                 "each is replayed on the real nodepoolhealth.State; a behaviour is non-trivial when it "
                 "wraps the 4-slot window at least once (>=5 outcomes without an intervening reset/restart)")
     r = run.closed_model("Health", "Health_MC.cfg", coverage=True)
@@ -58,7 +58,7 @@ def check(run):
         raise vlib.InfraError("spec mutation Health_Weak.cfg not detected by TLC (invariant would be vacuous)")
     run.notes.append("spec mutation (storage-order what-if) violates Inv_C20_DryRunAgrees as expected")
     depth = DEPTH[run.tier]
-    cfg = open(os.path.join(run.specdir, "Health_Gen.cfg")).read().replace("MaxLen = 7", "MaxLen = %d" % depth)
+    cfg = open(os.path.join(run.specdir, "Health_Gen.cfg")).read().replace("MaxLen = 6", "MaxLen = %d" % depth)
     open(os.path.join(run.specdir, "Health_Gen_run.cfg"), "w").write(cfg)
     behs = run.generate("Health", "Health_Gen_run.cfg", workers=1 if run.tier == "quick" else 4, timeout=1500)
     if not behs:
